@@ -391,6 +391,9 @@ class ExtendedKalmanFilter:
             symbolic_model=state_model, calibration_map=calibration_map, config=config
         )
         assert len(process_noise) == self.control_size
+        for key, value in process_noise.items():
+            if not isinstance(key, tuple) and value < 0.0:
+                raise ModelConstructionError(f"Negative process noise for {key}")
 
         self.calibration_vector = self._state_model.calibration_vector
 
